@@ -191,7 +191,7 @@ pub fn run(args: &Args, out: &mut Out) {
                     }
                 }
                 let name = f.file_name()?.to_string_lossy().to_string();
-                if args.q(&format!("corpus:{name}")) {
+                if args.q(&format!("corpus:{name}")) || args.q(&format!("c12-corpus:{name}")) {
                     return None;
                 }
                 let mutate = idx >= ncorpus;
